@@ -321,6 +321,105 @@ theorem parseNumber_good (w r : Bytes) (hw : GoodNum w) (hr : Sep r) :
   simp only []
   rw [List.take_append_of_le_length (by omega)]
 
+/-- a decimal number: digits, a dot, digits -/
+def GoodDec (w : Bytes) : Prop := ∃ d1 d2, w = d1 ++ 46 :: d2 ∧ GoodNum d1 ∧ GoodNum d2
+
+theorem dot_facts : isDigit 46 = false := by decide
+
+/-- **a decimal number is lexed as one number** spanning exactly its text -/
+theorem parseNumber_dec (w r : Bytes) (hw : GoodDec w) (hr : Sep r) :
+    parseNumber (w ++ r) = .ok { tok := { cat := 49, pos := 0, len := clip w.length, val := w.take (clip w.length) },
+                                 next := w.length } := by
+  obtain ⟨d1, d2, hwe, ⟨hne1, hall1⟩, ⟨hne2, hall2⟩⟩ := hw
+  have hl1 : 1 ≤ d1.length := length_pos_of_ne_nil hne1
+  have hl2 : 1 ≤ d2.length := length_pos_of_ne_nil hne2
+  have hwl : w.length = d1.length + (d2.length + 1) := by rw [hwe]; simp
+  -- the whole remaining input, kept opaque
+  generalize hR : w ++ r = R
+  have hRd : R = d1 ++ (46 :: (d2 ++ r)) := by rw [← hR, hwe]; simp
+  have hRl : R.length = w.length + r.length := by rw [← hR]; simp
+  have hl0 : 0 < R.length := by omega
+  have hspn : spn isDigit R = d1.length := by
+    rw [hRd]; exact spn_append_stop isDigit d1 46 (d2 ++ r) hall1 dot_facts
+  have hget : ∀ i, R[d1.length + i]? = (46 :: (d2 ++ r))[i]? := by
+    intro i; rw [hRd, List.getElem?_append_right (by omega)]; congr 1; omega
+  have hafter : ∀ x, R[w.length]? = some x → x = 32 := by
+    intro x hx
+    rw [← hR, List.getElem?_append_right (Nat.le_refl _), Nat.sub_self] at hx
+    rcases hr with rfl | ⟨r', rfl⟩
+    · simp at hx
+    · simpa using hx.symm
+  unfold parseNumber
+  simp only [at'_ok hl0, bind, Except.bind, pure, Except.pure]
+  have hds : numDigitSet R R[0] = .ok none := by
+    unfold numDigitSet
+    by_cases hc : (R[0] == 48 && decide (1 < R.length)) = true
+    · have h1 : 1 < R.length := by simp only [Bool.and_eq_true, decide_eq_true_eq] at hc; exact hc.2
+      simp only [hc, ↓reduceIte, at'_ok h1, bind, Except.bind, pure, Except.pure]
+      have hx : R[1] ≠ 88 ∧ R[1] ≠ 120 ∧ R[1] ≠ 66 ∧ R[1] ≠ 98 := by
+        rcases Nat.lt_or_ge 1 d1.length with hl | hg
+        · have hm : R[1] ∈ d1 := by
+            have := List.getElem?_append_left (l₂ := 46 :: (d2 ++ r)) hl
+            rw [← hRd, getElem_of _ 1 h1] at this
+            exact List.mem_of_getElem? this.symm
+          have := digit_facts _ (List.all_eq_true.mp hall1 _ hm)
+          exact ⟨this.1, this.2.1, this.2.2.1, this.2.2.2.1⟩
+        · have e1 : d1.length = 1 := by omega
+          have := hget 0
+          rw [e1, getElem_of _ 1 h1] at this
+          have e46 : R[1] = 46 := by simpa using this
+          rw [e46]; decide
+      have e1 : (R[1] == 88 || R[1] == 120) = false := by simp [hx.1, hx.2.1]
+      have e2 : (R[1] == 66 || R[1] == 98) = false := by simp [hx.2.2.1, hx.2.2.2]
+      simp only [e1, e2, Bool.false_eq_true, ↓reduceIte]
+    · simp only [hc, Bool.false_eq_true, ↓reduceIte, pure, Except.pure]
+  simp only [hds, hspn]
+  have hdot : numDot R d1.length = .ok (w.length, false) := by
+    unfold numDot
+    simp only [g, andM, toBool, byteIs, bind, Except.bind, pure, Except.pure]
+    have hlt : d1.length < R.length := by omega
+    have h46 : R[d1.length] = 46 := by
+      have := hget 0
+      rw [Nat.add_zero, getElem_of _ _ hlt] at this
+      simpa using this
+    simp only [hlt, decide_true, ↓reduceIte, at'_ok hlt, h46, beq_self_eq_true]
+    have hsl : sliceFrom R (d1.length + 1) = .ok (d2 ++ r) := by
+      unfold sliceFrom
+      have : d1.length + 1 ≤ R.length := by omega
+      simp only [this, ↓reduceIte]
+      rw [hRd, ← List.drop_drop, List.drop_left]
+      rfl
+    rw [hsl]
+    simp only []
+    have hs2 := spn_run isDigit d2 r hall2 hr space_facts.2
+    rw [hs2]
+    have e1 : (d1.length + 1 + d2.length == 1) = false := by simp; omega
+    simp only [e1]
+    congr 2
+    omega
+  have hexp : numExp R w.length = .ok (w.length, false, false) := by
+    unfold numExp
+    simp only [bind, Except.bind, pure, Except.pure]
+    by_cases hlt : w.length < R.length
+    · have := hafter _ (getElem_of _ _ hlt)
+      have e : (R[w.length] == 69 || R[w.length] == 101) = false := by rw [this]; decide
+      simp only [hlt, ↓reduceIte, at'_ok hlt, e, Bool.false_eq_true]
+    · simp only [hlt, ↓reduceIte]
+  have hsuf : numSuffix R w.length = .ok w.length := by
+    unfold numSuffix
+    simp only [bind, Except.bind, pure, Except.pure]
+    by_cases hlt : w.length < R.length
+    · have := hafter _ (getElem_of _ _ hlt)
+      have e : (R[w.length] == 100 || R[w.length] == 68 || R[w.length] == 102 || R[w.length] == 70) = false := by
+        rw [this]; decide
+      simp only [hlt, ↓reduceIte, at'_ok hlt, e, Bool.false_eq_true]
+    · simp only [hlt, ↓reduceIte]
+  simp only [hdot, Bool.false_eq_true, ↓reduceIte, hexp, hsuf, Bool.false_and]
+  have hcl := clip_le w.length
+  rw [assign_ok _ _ _ _ _ (by omega)]
+  simp only []
+  rw [← hR, List.take_append_of_le_length (by omega)]
+
 /-- dispatch classes whose lexer falls back to `parseWord` -/
 def wordyP : P → Bool
   | .word | .bstring | .estring | .nqstring | .qstring | .ustring | .xstring => true
@@ -456,6 +555,7 @@ inductive Txt : Bytes → Prop
   | word {w r : Bytes} : (GoodWord w ∨ GoodNum w) → Sep r → Txt r → Txt (w ++ r)
   | wordAt {w r : Bytes} : GoodWord w → Txt (64 :: r) → Txt (w ++ 64 :: r)
   | var {vw r : Bytes} : VarBody vw → Sep r → Txt r → Txt (64 :: (vw ++ r))
+  | dec {w r : Bytes} : GoodDec w → Sep r → Txt r → Txt (w ++ r)
 
 theorem goodTok_benign (cat : UInt8) (w : Bytes) (h : cat = 110 ∧ GoodWord w ∨ cat = 49 ∧ GoodNum w) (p : Nat) :
     BenignTok { goodTok cat w with pos := p } := by
@@ -572,6 +672,37 @@ theorem tokLoop_txt (fuel : Nat) : ∀ (s : State), Txt (s.input.drop s.pos) →
       simp only [hne0, ↓reduceIte]
       refine ⟨true, _, rfl, ?_, rfl, rfl, rfl, rfl, fun _ => ⟨{ goodTok 110 w with pos := (goodTok 110 w).pos + s.pos },
         by simp [List.getElem?_set, hc], goodTok_benign 110 w (Or.inl ⟨rfl, hw⟩) _⟩⟩
+      show Txt (s.input.drop (s.pos + w.length))
+      rw [drop_add_of _ _ _ _ hd]; exact hr
+    | @dec w r hw hsep hr =>
+      obtain ⟨d1, d2, hwe, ⟨hne1, hall1⟩, hd2⟩ := hw
+      have hl1 : 1 ≤ d1.length := length_pos_of_ne_nil hne1
+      have hwl : 1 ≤ w.length := by rw [hwe]; simp; omega
+      have hlt : s.pos < s.input.length := by
+        rcases Nat.lt_or_ge s.pos s.input.length with hl | hg
+        · exact hl
+        · rw [List.drop_of_length_le hg] at hd
+          have := congrArg List.length hd
+          simp at this; omega
+      have hl0 : 0 < (s.input.drop s.pos).length := by rw [hd]; simp; omega
+      have hwr : 0 < (w ++ r).length := by simp; omega
+      have hc0 : (w ++ r)[0]'hwr ∈ d1 := by
+        have h1 : (w ++ r)[0]? = d1[0]? := by
+          rw [hwe, List.append_assoc, List.getElem?_append_left (by omega)]
+        rw [List.getElem?_eq_getElem hwr] at h1
+        exact List.mem_of_getElem? h1.symm
+      have hdisp := dispatch_digit _ (List.all_eq_true.mp hall1 _ hc0)
+      have hrun : parseNumber (w ++ r) = .ok { tok := goodTok 49 w, next := w.length } :=
+        parseNumber_dec w r ⟨d1, d2, hwe, ⟨hne1, hall1⟩, hd2⟩ hsep
+      have h0 : (s.input.drop s.pos)[0] = (w ++ r)[0]'hwr := by simp [hd]
+      simp only [hlt, ↓reduceIte, sliceFrom_ok s.input s.pos (Nat.le_of_lt hlt), at'_ok hl0, h0, hdisp,
+        bind, Except.bind, pure, Except.pure, runP]
+      rw [hd, hrun]
+      simp only [tvSet_ok s s.cur _ hc]
+      have hne0 : (({ goodTok 49 w with pos := (goodTok 49 w).pos + s.pos } : Token).cat != 0) = true := rfl
+      simp only [hne0, ↓reduceIte]
+      refine ⟨true, _, rfl, ?_, rfl, rfl, rfl, rfl, fun _ => ⟨{ goodTok 49 w with pos := (goodTok 49 w).pos + s.pos },
+        by simp [List.getElem?_set, hc], Or.inr (Or.inl rfl)⟩⟩
       show Txt (s.input.drop (s.pos + w.length))
       rw [drop_add_of _ _ _ _ hd]; exact hr
     | @var vw r hv hsep hr =>
